@@ -252,6 +252,26 @@ def run_replay(mod, prop_id, path):
 
 
 def main(argv=None):
+    """every temporary file or directory of a run (scratch sandboxes, generated modules, shell work dirs - also those of worker
+    processes, which end without running their atexit handlers) lives under one directory that is removed when the run ends"""
+    import shutil
+    import tempfile
+    run_tmp = tempfile.mkdtemp(prefix='verif_run_')
+    old_env, old_td = os.environ.get('TMPDIR'), tempfile.tempdir
+    os.environ['TMPDIR'] = run_tmp
+    tempfile.tempdir = run_tmp
+    try:
+        return _main(argv)
+    finally:
+        tempfile.tempdir = old_td
+        if old_env is None:
+            os.environ.pop('TMPDIR', None)
+        else:
+            os.environ['TMPDIR'] = old_env
+        shutil.rmtree(run_tmp, ignore_errors=True)
+
+
+def _main(argv=None):
     argv = list(sys.argv[1:] if argv is None else argv)
     if len(argv) < 2:
         _print(__doc__)
